@@ -11,7 +11,12 @@ MANIFEST = {
                  "C10FileModel.v: cropMP4 as a whole = reference-track choice -> findEndTime -> cropToTime with sizeWithoutMdat computed from "
                  "the Size() of the cropped table boxes -> writeMdat) on the C09 table model "
                  "+ differential correspondence (extracted OCaml vs the real unexported routines and cropMP4 on virtual input files, reached "
-                 "through a verif-tagged test driver) + whole-tool runs of the built mp4ff-crop binary on synthesized progressive files",
+                 "through a verif-tagged test driver) + whole-tool runs of the built mp4ff-crop binary on synthesized progressive files; "
+                 "C10TreeModel.v: the WHOLE TOOL as a function from the bytes of the input file to the bytes of the output file on C01's "
+                 "box-tree model (C01's DecodeFileSR -> tables/headers read out of the tree -> crop_mp4_all -> the boxes rebuilt -> "
+                 "C01's encoder -> writeMdat), proved to write encode(out tree) ++ mdat header ++ kept ranges and to be decodable "
+                 "(print-then-parse proof over C01's decoder) + byte-for-byte differential correspondence of the extracted model against "
+                 "the built binary",
     "level_text": "Theorems (coq/c10/C10Theorems.v), all for ALL inputs. C10_crop_end_to_end (the property, about crop_mp4_file/"
                   "crop_mp4_output = cropMP4): any number of tracks with handler types, every track static_ok (consistent tables, id != 0, chunk "
                   "offsets in [1,2^62) in ANY order - non-monotone, overlapping, zero-size, adjacent chunks included, ex_wild_layout -, chunks "
@@ -36,13 +41,33 @@ MANIFEST = {
                   "Earlier theorems kept: per-routine crop theorems, C10_k, C10_end_time_*, C10_fill_terminates, C10_layout(_total/_ranges), "
                   "C10_samples_end_to_end, C10_output_readable, C10_crop_to_time, C10_header_durations (+ C10_mvhd_duration_refuted = known "
                   "C10-F9), C10_offsets_input_header_refuted, C10_stco_wrap_refuted. "
-                  "Explored only (correspondence + search): the ENCODING of the non-mdat boxes (pre: any bytes of the modelled length), the "
-                  "order of the Encode calls inside writeUptoMdat, and the whole binary on synthesized files.",
+                  "THE OUTPUT FILE AS BYTES (coq/c10/C10FileTheorems.v, model C10TreeModel.crop_tool on C01's box-tree model, `rest` is no "
+                  "longer an input: it is computed from the Size() of the decoded boxes): C10_output_file_bytes, for EVERY input byte string "
+                  "and duration on which the tool model succeeds, no other hypothesis: the output is Box.Encode of the non-mdat input boxes in "
+                  "input order (ftyp/moov/mdat and mdat-before-moov layouts, free/skip/unknown boxes kept) with the moov replaced by out_moov "
+                  "(table leaves stts ctts stsc stsz stco|co64 stss sdtp replaced by the cropped+shifted tables, mvhd/tkhd Duration and elst "
+                  "segment durations updated as writeUptoMdat does, mdhd untouched as in the code, every box on the way re-sized, everything "
+                  "else identical) ++ (32-bit size,'mdat') ++ the bytes writeMdat copies, |body| = byteRanges.size(), 8+|body| < 2^32. "
+                  "C10_output_decodes ('its output is a decodable progressive file'): if moreover the input boxes are exact (C01's exact_box: "
+                  "compact headers announcing Size()) and the numbers of the rebuilt leaves fit their fields (tree_fits), then |encoded "
+                  "boxes| = sum of Size() and C01's model of the DecodeFileSR box loop run on the written bytes returns exactly those boxes "
+                  "(decoder's view: reserved bytes = encoder's values, stsc ids in the decoder's form) followed by ONE mdat box holding the "
+                  "copied bytes. Supporting theorems: C10_decoder_fuel_irrelevant (C01's decoder gives the same result at every fuel >= a "
+                  "structural bound: the cropped file is shorter than its input, C01's fixed point re-decodes with the input's fuel), "
+                  "C10_rebuilt_leaf_prints_and_parses (print-then-parse of stts ctts stsc stsz stco/co64/stss sdtp elst mvhd tkhd for ANY "
+                  "values that fit), C10_report_is_tool; Examples on both layouts. "
+                  "Explored only (correspondence + search): the two boolean hypotheses of C10_output_decodes (exact input boxes, tree_fits) "
+                  "are EVALUATED on every successful whole-tool case (all satisfy them) but not derived from decodedness of the input; that the "
+                  "encoded length equals the sizeWithoutMdat that shifted the offsets is compared on every case, not proved; DecodeFile's "
+                  "lazy-mdat reader path vs C01's slice path; inputs outside the modelled structure (missing/repeated mandatory child boxes, "
+                  "several moov/mdat); the whole binary on synthesized files.",
     "level_note": "Trusted: Coq kernel, extraction, OCaml/Go glue, hand transcription checked only differentially (virt correspondence: the "
                   "model's sizeWithoutMdat, computed from rest = real size minus the real Size() of the input's table boxes, must equal the "
                   "start of the mdat cropMP4 writes; a checksum of the written mdat payload must equal the model's write_mdat bytes, lazy and "
-                  "in-memory input mdat; handler letters v/s/o per track; a repeated track id); the byte encoding of moov/ftyp/free is not modelled (only its "
-                  "length); `rest` (bytes of the boxes the crop does not resize) is an input of the model; hypotheses of the end-to-end "
+                  "in-memory input mdat; handler letters v/s/o per track; a repeated track id; whole tool: the extracted crop_tool must reproduce "
+                  "the binary's outcome class and every byte of its output file on every whole-tool run + a malformed stream); in the "
+                  "end-to-end theorem of C10Theorems.v `rest` is still a parameter (C10TreeModel instantiates it; the instantiation is "
+                  "checked per case, not proved); C10FileTheorems.v imports coq/c01 (model + proofs) read-only; hypotheses of the end-to-end "
                   "theorem: trak_wf per track, 2^62 + 2*sample bytes < 2^64, |pre| + 8 + 2*sample bytes < 2^64, input file < 2^63 bytes, "
                   "lazily decoded non-empty input mdat; C10SizeProofs imports coq/c01/C01Model.v read-only.",
 }
@@ -73,7 +98,11 @@ def run(ctx):
         "(crop_mp4_file, crop_mp4_output); `rest` = the bytes of the non-mdat boxes other than the table boxes is an input of the model: "
         "in the virt correspondence it is the real old size minus the real Size() of the input's table boxes, and the model's "
         "sizeWithoutMdat must equal the start of the mdat the real cropMP4 writes",
-        "spec: coq/c09/C09Spec.v expansion + consistent; the prefix statements of coq/c10/C10Theorems.v",
+        "model: coq/c10/C10TreeModel.v: run()+cropMP4 on C01's box tree (coq/c01/C01Model.v, C01FileModel.v: hand models of DecodeBoxSR/"
+        "DecodeFileSR/Encode, tied to the code by C01's own check): which child boxes feed the crop (the one box of each kind), how the "
+        "rebuilt boxes are written back; None = outside the modelled structure",
+        "spec: coq/c09/C09Spec.v expansion + consistent; the prefix statements of coq/c10/C10Theorems.v; C01's decode_file as the "
+        "meaning of 'decodable' in coq/c10/C10FileTheorems.v",
         "test driver: /repo/cmd/mp4ff-crop/c10_verif_test.go (add-only, //go:build verif) builds the boxes and calls the routines",
         "search oracle: harness/c09/tbl Expand (independent expansion) on the routines' results and on decoded output files; "
         "closed formulas for the shifted offsets, the durations and the mdat bytes",
